@@ -322,9 +322,11 @@ def rule_Q3(ctx):
     opens = [c for c in own_nodes(pt) if isinstance(c, ast.Call) and norm(c.func) == "open"]
     ok = len(opens) == 1
     if ok:
-        kw = {k.arg: norm(k.value) for k in opens[0].keywords}
-        pos = [norm(a) for a in opens[0].args]
-        ok = kw.get("encoding") == "'ascii'" and (len(pos) < 2 or pos[1] == "'r'") and kw.get("errors") is None
+        # canonical call term: keyword / positional spellings and module constants are folded
+        from .util import call_parts
+        fname_, pos, kw = call_parts(evaluator(ctx, pt, {}).ev(opens[0]).key())
+        mode = pos[1] if len(pos) > 1 else kw.get("mode")
+        ok = fname_ == "open" and kw.get("encoding") == "'ascii'" and mode in (None, "'r'", "'rt'") and kw.get("errors") in (None, "'strict'")
     ctx.ob("Q3", pt, "the text probe opens the file as strict ASCII text", ok, "", inst="ascii-open")
     rl = [c for c in own_nodes(pt) if isinstance(c, ast.Call) and isinstance(c.func, ast.Attribute) and c.func.attr in ("readlines", "read")]
     ok = len(rl) == 1
